@@ -291,8 +291,61 @@ func allInstrsDepth(fn *ssa.Function, f func(ssa.Instruction), depth int) {
 			if g := inlinedCallee(in); g != nil && depth < 4 {
 				allInstrsDepth(g, f, depth+1)
 			}
+			// a function literal of fn handed to a helper of the package that does nothing with it but call it on the spot
+			// (r.withLock(func() { … })): its body belongs to fn, at this point
+			if depth < 4 {
+				for _, lit := range syncLiteralArgs(in) {
+					allInstrsDepth(lit, f, depth+1)
+				}
+			}
 		}
 	}
+}
+
+// syncLiteralArgs: the function literals (of in's own function) passed by the synchronous call `in` to a function of the
+// analysed package whose corresponding parameter is only ever called, synchronously (never stored, spawned or deferred).
+func syncLiteralArgs(in ssa.Instruction) []*ssa.Function {
+	if crossWorld == nil {
+		return nil
+	}
+	call, ok := in.(*ssa.Call)
+	if !ok {
+		return nil
+	}
+	h := staticCallee(call)
+	if h == nil || !crossWorld.inRoot(h) || len(h.Blocks) == 0 {
+		return nil
+	}
+	var out []*ssa.Function
+	for i, a := range call.Call.Args {
+		mc, isMC := a.(*ssa.MakeClosure)
+		if !isMC {
+			continue
+		}
+		lit, isF := mc.Fn.(*ssa.Function)
+		if !isF || lit.Parent() != in.Parent() || lit.Synthetic != "" || i >= len(h.Params) {
+			continue
+		}
+		p := h.Params[i]
+		onlyCalled := p.Referrers() != nil && len(*p.Referrers()) > 0
+		if onlyCalled {
+			for _, r := range *p.Referrers() {
+				switch x := r.(type) {
+				case *ssa.Call:
+					if x.Call.Value != ssa.Value(p) {
+						onlyCalled = false
+					}
+				case *ssa.DebugRef:
+				default:
+					onlyCalled = false
+				}
+			}
+		}
+		if onlyCalled {
+			out = append(out, lit)
+		}
+	}
+	return out
 }
 
 // inlinedCallee: in is the one and only call (synchronous) of a private helper: the helper whose body is treated as part of
@@ -1057,6 +1110,17 @@ func factsAt(in ssa.Instruction) []EdgeFact {
 	for i := range fs {
 		fs[i] = normFact(fs[i])
 	}
+	// `if err := helper(); err != nil { return }` with helper a private function used only here: past that test, whatever
+	// holds at every nil-error return of the helper holds too (it returned through one of them)
+	if crossWorld != nil {
+		for _, f := range append([]EdgeFact{}, fs...) {
+			x, op, y, ok := cmpFact(f)
+			if !ok || op != token.EQL || !isNilConst(y) {
+				continue
+			}
+			fs = append(fs, impliedByNilError(stripConv(x))...)
+		}
+	}
 	// code of a private helper used at one place is also guarded by what guards that place
 	if w := crossWorld; w != nil && in.Parent().Parent() == nil {
 		if s := w.soleSite(in.Parent()); s != nil && s.Parent() != in.Parent() {
@@ -1064,6 +1128,58 @@ func factsAt(in ssa.Instruction) []EdgeFact {
 		}
 	}
 	return fs
+}
+
+// impliedByNilError: v is the error result of a call of a virtually inlined helper: the facts common to all of the helper's
+// returns whose error result is the nil constant.
+func impliedByNilError(v ssa.Value) []EdgeFact {
+	var call *ssa.Call
+	idx := 0
+	switch x := v.(type) {
+	case *ssa.Call:
+		call = x
+	case *ssa.Extract:
+		call, _ = x.Tuple.(*ssa.Call)
+		idx = x.Index
+	}
+	if call == nil {
+		return nil
+	}
+	h := inlinedCallee(call)
+	if h == nil {
+		return nil
+	}
+	res := h.Signature.Results()
+	if res.Len() == 0 || idx != res.Len()-1 || types.TypeString(res.At(idx).Type(), nil) != "error" {
+		return nil
+	}
+	var common []EdgeFact
+	first := true
+	for _, b := range h.Blocks {
+		ret, ok := b.Instrs[len(b.Instrs)-1].(*ssa.Return)
+		if !ok || len(ret.Results) != res.Len() || !isNilConst(ret.Results[idx]) {
+			continue
+		}
+		fs := dominatingFacts(b)
+		for i := range fs {
+			fs[i] = normFact(fs[i])
+		}
+		if first {
+			common, first = fs, false
+			continue
+		}
+		var keep []EdgeFact
+		for _, f := range common {
+			for _, g := range fs {
+				if f.Cond == g.Cond && f.True == g.True {
+					keep = append(keep, f)
+					break
+				}
+			}
+		}
+		common = keep
+	}
+	return common
 }
 
 // cmpFact: if the fact is a comparison, return (x, op, y) with op adjusted for polarity.
@@ -1679,8 +1795,13 @@ func errBranchAfter(call *ssa.Call, ret *ssa.Return) *ssa.BasicBlock {
 		return nil
 	}
 	for _, in := range b.Instrs[idx+1 : len(b.Instrs)-1] {
-		switch in.(type) {
-		case *ssa.Extract, *ssa.BinOp, *ssa.DebugRef:
+		switch x := in.(type) {
+		case *ssa.Extract, *ssa.BinOp, *ssa.DebugRef, *ssa.Alloc:
+		case *ssa.Store:
+			// a result kept in a local variable cell (captured by a function literal later on)
+			if _, isCell := x.Addr.(*ssa.Alloc); !isCell {
+				return nil
+			}
 		default:
 			return nil
 		}
